@@ -46,6 +46,17 @@ type Fact struct {
 	Sha      string                    `json:"sha"` // sha256 of the gob encoding
 	Size     int                       `json:"size"`
 	Sites    []inference.VerifSiteInfo `json:"sites,omitempty"`
+	// SiteObjs[i] describes the object declared at the position of Sites[i], looked up in the type information of the
+	// loaded packages (independently of NilAway): whether it was found and whether Go calls it exported.
+	SiteObjs []SiteObj `json:"siteobjs,omitempty"`
+}
+
+// SiteObj is what go/types says about the object a site's position points at.
+type SiteObj struct {
+	Found    bool   `json:"found"`
+	Exported bool   `json:"exported"`
+	Name     string `json:"name"`
+	Kind     string `json:"kind"`
 }
 
 // Trigger is one full trigger of the assertion analyzer, rendered abstractly: kinds, site keys, consumer position.
@@ -145,6 +156,22 @@ func Run(o Options) (*Result, error) {
 		return nil, err
 	}
 	absDir, _ := filepath.Abs(o.Dir)
+	// declared objects of every loaded package by absolute position, for the site oracle
+	defs := map[string]types.Object{}
+	if o.Sites {
+		packages.Visit(pkgs, nil, func(p *packages.Package) {
+			if p.TypesInfo == nil || p.Fset == nil {
+				return
+			}
+			for id, obj := range p.TypesInfo.Defs {
+				if obj == nil {
+					continue
+				}
+				posn := p.Fset.Position(id.Pos())
+				defs[fmt.Sprintf("%s:%d:%d", posn.Filename, posn.Line, posn.Column)] = obj
+			}
+		})
+	}
 	for act := range g.All() {
 		if act.Err != nil {
 			res.Errors = append(res.Errors, fmt.Sprintf("%s@%s: %v", act.Analyzer.Name, act.Package.PkgPath, act.Err))
@@ -188,7 +215,17 @@ func Run(o Options) (*Result, error) {
 			} else {
 				sha = "ENCODE-ERROR: " + err.Error()
 			}
-			res.Facts = append(res.Facts, Fact{Pkg: act.Package.PkgPath, Analyzer: act.Analyzer.Name, Type: fmt.Sprintf("%T", pf.Fact), Sha: sha, Size: size, Sites: sitesIf(o.Sites, pf.Fact)})
+			fct := Fact{Pkg: act.Package.PkgPath, Analyzer: act.Analyzer.Name, Type: fmt.Sprintf("%T", pf.Fact), Sha: sha, Size: size, Sites: sitesIf(o.Sites, pf.Fact)}
+			for _, si := range fct.Sites {
+				so := SiteObj{}
+				if abs, err := filepath.Abs(si.File); err == nil {
+					if obj, ok := defs[fmt.Sprintf("%s:%d:%d", abs, si.Line, si.Col)]; ok {
+						so = SiteObj{Found: true, Exported: obj.Exported(), Name: obj.Name(), Kind: fmt.Sprintf("%T", obj)}
+					}
+				}
+				fct.SiteObjs = append(fct.SiteObjs, so)
+			}
+			res.Facts = append(res.Facts, fct)
 		}
 	}
 	// g.All() order is not specified: canonicalise by package, keeping per-package report order
